@@ -15,5 +15,8 @@ CONSTANTS
 INVARIANT NoWaiterLeftObs
 INVARIANT NoOrphanConnectionObs
 INVARIANT NoOrphanTaskObs
+INVARIANT NoWaiterLeftAtReturn
+INVARIANT NoOrphanConnectionAtReturn
+INVARIANT NoOrphanTaskAtReturn
 INVARIANT ConnectBackCleanObs
 CHECK_DEADLOCK TRUE
